@@ -26,6 +26,7 @@ EXPLANATION = (
     "score is classification_score(truth from the annotation's tags, scores from the prediction's tags); R08.6 clip "
     "and overall scores are guarded means over exactly the constructed matches / clip evaluations; R08.7 the three "
     "branches cover the three (None?, None?) cases, each appending exactly one Match with the right sides."
+    "Values are typed by object domain as well as index domain (a sound event carried as an element of a filtered copy of its list); the formula rules of C06 are run as necessary conditions of 'paired only if they overlap'. "
 )
 ASSUMPTIONS = [
     "match_geometries mentions every source and target index exactly once (decided by C07)",
